@@ -490,12 +490,20 @@ Proof.
   intros [K|[C _]]; unfold v_container; [rewrite (known_v_elem _ _ K) | rewrite C]; rewrite ?orb_true_r; reflexivity.
 Qed.
 
+(* the operation that hands [c] to the sink *)
+Definition inserts (op : sinkop) (c : child) : Prop :=
+  match op with
+  | OpAppend _ c' | OpAppendBeforeSibling _ c' | OpAppendBasedOnParent _ _ c' => c' = c
+  | _ => False
+  end.
+
 Lemma wp_insert_at s0 s need ip c (Q : unit -> st -> Prop) :
   keeps s0 s -> ip_ok s need ip -> child_ok s c ->
-  (forall s', keeps s0 s' -> same_lists s s' -> Q tt s') -> wp (insert_at ip c) Q s.
+  (forall s', keeps s0 s' -> same_lists s s' -> (exists ins, out s' = EvOp ins :: out s /\ inserts ins c) -> Q tt s') ->
+  wp (insert_at ip c) Q s.
 Proof.
   intros K Ok Ch H. unfold child_ok in Ch.
-  destruct ip as [p|sb|e p]; simpl; rewrite wp_emit; (apply H; [|split; reflexivity]);
+  destruct ip as [p|sb|e p]; simpl; rewrite wp_emit; (apply H; [|split; reflexivity | eexists; split; reflexivity]);
     (apply keeps_emit; [exact K | reflexivity | reflexivity |]); cbn [op_okb].
   - rewrite (ip_ok_container _ _ _ Ok), Ch. reflexivity.
   - destruct Ok.
@@ -511,7 +519,7 @@ Proof.
   eapply (wp_appropriate_place s s); [apply keeps_refl; exact (proj1 K) | exact L | exact Ko |]. intros ip s1 K1 SL1 Ok1.
   assert (K1' : keeps s0 s1) by (eapply keeps_trans; eassumption).
   eapply wp_insert_at; [exact K1' | exact Ok1 | eapply child_ok_stable; [exact (proj2 K1) | exact Ch] |].
-  intros s2 K2 SL2. apply H; [exact K2 | eapply same_lists_trans; eassumption].
+  intros s2 K2 SL2 _. apply H; [exact K2 | eapply same_lists_trans; eassumption].
 Qed.
 
 Lemma wp_append_text s0 s text (Q : presult -> st -> Prop) :
